@@ -34,6 +34,21 @@ def _sync(title, oracle, ref):
 
 
 CHECKS.update({
+    "C18": dict(
+        category="exploration",
+        technique="runtime monitoring: hook-fed independent totals (interval hooks of dr_options + the generator's own dependency structure) compared with the recorder's root node and its .stat report over a grid of contraction settings; serial multi-worker simulator driving the public dr_*__ entry points; ASan/UBSan",
+        text=("Generated well-nested programs (task/section grammar with 'other' intervals, depth<=6, fan-out<=6, 1-16 simulated workers, migrations at every runtime call, busy waits crossing the thresholds) are recorded under "
+              "up to ten contraction settings each; work, critical path, interval counts and edge totals by kind reported by the recorder (root node and .stat) must equal the totals computed from the complete interval "
+              "sequence delivered to the user hooks, T_inf<=T_1, and counts must agree across settings of the same program."),
+        design_ref="DESIGN.md section 5 C18",
+    ),
+    "C19": dict(
+        category="exploration",
+        technique="runtime monitoring: independent file-format validator + counting callback on the library's chronological replay + byte-level round trip + conversion by the real dag2any --shrink, on every DAG produced by the C18 grid; ASan/UBSan",
+        text=("Every dumped and converted .dag is parsed independently (size, offsets, tree reaching every node, edges grouped by source with consistent ranges, string table), replayed (each leaf starts and ends exactly once, "
+              "nothing running or ready at the end), read back and re-written byte-identically, shrunk by dag2any under several conversion settings with totals preserved; 1-300 distinct source-file names."),
+        design_ref="DESIGN.md section 5 C19",
+    ),
     "C16": dict(
         category="translation_validation",
         technique="differential execution: a seeded determinate pthread program interpreter run natively and redirected by ld --wrap and by LD_PRELOAD (hooked library builds, 1-16 workers, delay profiles, ASan); stdout and exit status compared",
